@@ -440,6 +440,41 @@ def run_hyb(name, tier, res, seed):
         else:
             res.outcomes["ok"] += 1
             res.states += 1
+    # an object pickled TOGETHER WITH a part of it: the target of its reference field (same buffer) / its nested part
+    if name in ("PH2", "PH3"):
+        from . import pickle_types as pt
+
+        H = pt.HYBRIDS
+        for ctxkind in CTXKINDS[:2]:
+            f = dict(cls=name, group="with-its-part", hybrid=True, context=ctxkind)
+            cid = dict(part="hyb", name=name, group="with-its-part", context=ctxkind)
+            res.cases += 1
+            res.transitions += 2
+            res.events["pickle"] += 1
+            res.events["write-new"] += 1
+            try:
+                buf = context_of_kind(ctxkind).new_buffer(64)
+                if name == "PH3":
+                    part = H["PH1"](x=5, v=[1.0, 2.0], _buffer=buf)
+                    whole = H["PH3"](r=part, k=1, _buffer=buf)
+                    via = lambda w: w.r
+                else:
+                    whole = H["PH2"](inner=dict(x=5, v=[1.0, 2.0]), label="lab", w=[1, 2], _buffer=buf)
+                    part = whole.inner
+                    via = lambda w: w.inner
+                w2, p2 = pickle.loads(pickle.dumps([whole, part]))
+                if w2._buffer is not p2._buffer:
+                    bad("C20.sharing", "buffer-sharing-changed", f, cid, "an object and its part (reference target / nested part) pickled together came back in two buffers")
+                    continue
+                p2.x = 4242
+                seen = int(via(w2).x)
+                if seen != 4242 or int(via(whole).x) != 5:
+                    bad("C20.sharing", "part-detached-from-its-holder", f, cid, "write through the unpickled part reads %d through the unpickled holder (original holder reads %d)" % (seen, int(via(whole).x)))
+                    continue
+                res.outcomes["ok"] += 1
+                res.states += 1
+            except Exception as e:
+                bad("C20.pickle", "pickle-or-read-raises:" + common.exc_failure(e), f, cid, repr(e))
     res.max_depth = 2
 
 
